@@ -33,7 +33,16 @@ def check(m, run):
     from . import c16, c02
     c16.pu4(m, run)        # ... and no caller mutates a memoised result: otherwise results depend on what is still cached (cache size, call history)
     ev_ = lambda c: m.cls('evaluators', c).methods['derivatives']
-    c02.ax6(m, run, [ev_('SurfaceEvaluator'), ev_('SurfaceEvaluator2')])   # both evaluator families fill the derivative table in the same [u-order][v-order] positions
+    # the two evaluator families are compared cell by cell on labelled nets (EV3) and each is an exact identity on symbolic tables (A36S, A34S);
+    # the rule that reads where the table is written corroborates
+    from .. import skel_drivers as _sd
+    n0 = len(run.obs)
+    _sd.ev3(m, run)
+    _sd.a36s(m, run)
+    _sd.a34s(m, run)
+    ev_ok = all(o.ok for o in run.obs[n0:])
+    with run.corroborating(ev_ok, 'EV3/A36S/A34S', rules=('AX6.table-order',)):
+        c02.ax6(m, run, [ev_('SurfaceEvaluator'), ev_('SurfaceEvaluator2')])   # both evaluator families fill the derivative table in the same [u-order][v-order] positions
     ag4(m, run)
     sp1(m, run)
     ev1_ag3(m, run)
